@@ -1,12 +1,15 @@
 #!/bin/bash
-# usage: tools/seedsweep.sh [parallel] [seed ...]   runs the quick check of each seed's own property against the seeded tree
+# usage: tools/seedsweep.sh <parallel> [seed ...]   runs the check listed in tools/seedmap.txt against each seeded tree
 par=${1:-2}; shift
 seeds="$@"
-[ -z "$seeds" ] && seeds=$(ls /verif/seeded)
+[ -z "$seeds" ] && seeds=$(grep -v '^#' /verif/tools/seedmap.txt | awk '{print $1}')
 run_one() {
   s=$1
-  prop=$(python3 -c "import json;print(json.load(open('/verif/seeded/$s/meta.json'))['property'])")
-  VERIF_JOBS=4 /verif/tools/seedtest.sh $s $prop --tier quick --jobs 4 > /verif/logs/seedsweep/$s.out 2>&1
+  line=$(grep "^$s " /verif/tools/seedmap.txt)
+  prop=$(echo "$line" | awk '{print $2}')
+  extra=$(echo "$line" | cut -d' ' -f3-)
+  case "$extra" in *--tier*) tierarg="";; *) tierarg="--tier quick";; esac
+  /verif/tools/seedtest.sh $s $prop $tierarg --jobs 5 $extra > /verif/logs/seedsweep/$s.out 2>&1
   echo "$s $prop rc=$? $(grep -c '^VIOLATION' /var/tmp/seedtest/$s-$prop/check.out 2>/dev/null) violations" >> /verif/logs/seedsweep/summary.txt
 }
 mkdir -p /verif/logs/seedsweep
